@@ -14,6 +14,7 @@ def run(ctx):
     ctx.step(_p4r, ctx)
     ctx.step(_s6, ctx)
     ctx.step(_p12u, ctx)
+    ctx.step(_s7, ctx)
 
 
 # ----------------------------------------------------------------------------------------
@@ -275,7 +276,10 @@ def _w19(ctx):
             bounds = {b_.rsplit('::', 1)[-1] for (t_, b_) in preds if t_ == a_}
             if any(re.search(r'multiqueue::QueueRW<', b_) for (t_, b_) in preds if t_ == a_):
                 continue   # the flavour marker (BCast<T> / MPMC<T>): a zero-sized PhantomData carrier
-            if which not in bounds:
+            # a bound by a trait of this crate (a marker with supertraits, `T: Portable`) is not readable from the impl
+            # header: what it implies is decided by the trait-solver witnesses of C19
+            local = [b_ for (t_, b_) in preds if t_ == a_ and not re.match(r'^(std|core|alloc)::', b_) and re.match(r'^[a-z_][A-Za-z0-9_]*::', b_)]
+            if which not in bounds and not local:
                 missing.append(a_)
         ok = not missing
         ctx.add('W19', 'T-WHO', adt, ok, 'unsafe impl %s for %s bounds every parameter the type stores' % (which, short(adt)) if ok else
@@ -283,6 +287,28 @@ def _w19(ctx):
                 % (which, short(adt), ', '.join('`%s: %s`' % (m_, which) for m_ in missing), which), where='%s:%s' % (im.get('file', '?'), im.get('line', '?')),
                 sub='%s|%s' % (which, short(adt)))
     ctx.floor('W19', n, 6, 'unsafe impl Send/Sync for a handle type with all parameters free')
+    # the queue object itself is `Send + Sync` for every payload (its unsafe impls are unbounded: it is only reachable
+    # through handle types that carry the bounds).  A type that shares the queue directly must therefore carry them
+    # too: an explicit `unsafe impl Send` that bounds the payload, and something that keeps it from being auto-Sync
+    q = 0
+    for path, a in sorted(F.adts.items()):
+        flds = [fl for v in a['variants'] for fl in v['fields']]
+        # (shared ownership or a raw pointer; a guard that borrows the queue for the duration of a call cannot outlive
+        # the handle it was made from)
+        if not any(re.search(r'(Arc|Rc|Weak)<multiqueue::MultiQueue<|\*(const|mut) multiqueue::MultiQueue<', fl['ty']['s']) for fl in flds):
+            continue
+        q += 1
+        sends = [im for im in F.impls if (im.get('trait') or '').endswith('marker::Send') and im['self_ty'].get('adt') == path and im.get('polarity') == 'Positive']
+        payload_bounded = any(any(re.match(r'^T: (std|core)::marker::Send$', p_) or re.match(r'^T: (?!std::|core::|alloc::)[a-z_][A-Za-z0-9_]*::', p_)
+                                  for p_ in im.get('predicates') or []) for im in sends)
+        not_sync = any(re.search(r'(^|[<( ])(\*const |\*mut )|cell::(Cell|RefCell|UnsafeCell)<', fl['ty']['s']) for fl in flds)
+        sync_impl = [im for im in F.impls if (im.get('trait') or '').endswith('marker::Sync') and im['self_ty'].get('adt') == path and im.get('polarity') == 'Positive']
+        ok = payload_bounded and not_sync and not sync_impl
+        ctx.add('W19', 'T-WHO', path, ok, '%s shares the queue under an explicit Send impl that bounds the payload, and is not Sync' % short(path) if ok else
+                '%s holds the queue object (Arc<MultiQueue<..>>) %s: MultiQueue itself is Send + Sync for every payload, so this type is a handle that can be sent / shared across threads with a payload that is not Send / Sync (and destroys the queued values on whatever thread drops it last)'
+                % (short(path), 'without an `unsafe impl Send` of its own that bounds `T: Send`' if not payload_bounded else 'and is (auto-)Sync'),
+                sub='queue-share|%s' % short(path))
+    ctx.floor('W19', q, 2, 'types that hold the queue object')
 
 
 # ----------------------------------------------------------------------------------------
@@ -417,3 +443,50 @@ def _p12u(ctx):
                 '%s calls user code (%s) while it walks the published stream list: re-entering the queue through the same handle announces the current epoch again and a concurrent reclamation frees the list under the walker'
                 % (short_fn(name), ', '.join(sorted(set(bad))[:2])), sub='list-walk')
     ctx.floor('P12u', n, 3, 'functions of read_cursor.rs that load the stream list')
+
+
+# ----------------------------------------------------------------------------------------
+# S7: inside the crate a receive iterator is only driven by adaptors that deliver every element they pull.  `a.zip(b)`
+# pulls from `a` before it looks at `b`, `take_while` / `map_while` pull the element that ends them, `peekable` holds
+# one back: with a receive iterator on that side the element was taken off the stream (position committed, for a
+# move-out queue gone for good) and is dropped inside the adaptor.
+# ----------------------------------------------------------------------------------------
+
+LOSSY_ADAPTORS = ('zip', 'take_while', 'map_while', 'peekable')
+CRATE_ITER_RE = r'(broadcast|mpmc)::\w*Iter\b'
+
+
+def _s7(ctx):
+    F = ctx.F
+    n = 0
+    for name in sorted(F.fns):
+        f = F.fns[name]
+        if f.get('from_expansion'):
+            continue
+        for b in f['blocks']:
+            if b['cleanup']:
+                continue
+            t = b['term']
+            if t['k'] != 'call':
+                continue
+            m = re.search(r'iter::(?:traits::iterator::)?Iterator::(\w+)$', t.get('fn') or '')
+            if not m or not t.get('args'):
+                continue
+            a0 = t['args'][0]
+            ty = (a0.get('pl') or {}).get('ty') or ''
+            if not ty and 'pl' in a0:
+                ty = f['locals'][a0['pl']['l']]['ty']['s']
+            if not re.search(CRATE_ITER_RE, ty):
+                continue
+            n += 1
+            meth = m.group(1)
+            ok = meth not in LOSSY_ADAPTORS
+            owner = name
+            while F.fns[owner]['kind'] == 'Closure' and F.fns[owner].get('parent') in F.fns:
+                owner = F.fns[owner]['parent']
+            ctx.add('S7', 'T-SIB', owner, ok, 'receive iterator driven by `%s`' % meth if ok else
+                    '%s drives a receive iterator (%s) through `%s`, which pulls an element it does not deliver: the value is taken off the stream (position committed; on a move-out queue gone for every consumer) and dropped inside the adaptor'
+                    % (short_fn(owner), ty[:60], meth), where='%s:%s' % (f.get('file', '?'), b.get('line', '?')), sub='adaptor|%s' % meth)
+    if n == 0:
+        # the rule has no subject on a tree that never drives its iterators itself (the reference tree): record that
+        ctx.add('S7', 'T-SIB', ctx.fn1(r'^multiqueue::MultiQueue::<.*>::try_recv$'), True, 'no receive iterator is driven by an adaptor inside the crate', sub='none')
